@@ -232,3 +232,22 @@ def included_fixed_form():
         return {"confirmed": True, "input": {"fixed": fixed, "decls.inc": inc}, "actual": got, "expected": want,
                 "how": "real FortranReader(fixed=True) on a file that INCLUDEs fixed-form declarations vs the free-form rendering"}
     return None
+
+
+def form_by_extension():
+    """the source form of a file follows from its extension alone: every extension of `fixed_extensions` (f, for, F, FOR with the defaults) is read as fixed form, whether or not it
+    is also one of the extensions sent through the preprocessor; everything else as free form"""
+    fixed = "      module legacy_{0}\n      integer n{0}\nC     an old-style comment line\n      common /blk{0}/ n{0}\n      end module legacy_{0}\n"
+    free = "module modern_{0}\n  integer :: m{0}  ! free form: text may start in column 1\nend module modern_{0}\n"
+    exts_fixed, exts_free = ["f", "for", "F", "FOR"], ["f90", "F90", "f95", "f03", "f08"]
+    files = {f"src/legacy_{k}.{e}": fixed.format(k) for k, e in enumerate(exts_fixed)}
+    files.update({f"src/modern_{k}.{e}": free.format(k) for k, e in enumerate(exts_free)})
+    try:
+        proj = realrun.build_project(files, preprocess=False, dbg=True)
+        got = sorted(m.name for m in proj.modules)
+    except Exception as e:
+        got = f"{type(e).__name__}: {e}"
+    want = sorted([f"legacy_{k}" for k in range(len(exts_fixed))] + [f"modern_{k}" for k in range(len(exts_free))])
+    if got != want:
+        return {"confirmed": True, "input": {"files": files}, "actual": got, "expected": want, "how": "real Project with the default extension lists: modules found in fixed-form files of every fixed extension and free-form files of every free one"}
+    return None
